@@ -214,12 +214,22 @@ def uuidTyped : Val → Bool
   | .null | .text _ => true
   | _ => false
 
+/-- Every column of the row holds what the API and the triggers can have put
+there (`colTyped`): in particular every timestamp column is within the range
+`to_time_point` converts without overflow and every blob column holds a blob of
+its own kind — which is what makes `get` defined on the row. -/
+def rowTypedT (raw : Raw TCol) : Bool := TField.all.all (fun f => colTyped f.ty (raw f.col))
+
 /-- Invariant of every state reachable through the API: row ids are bounded by
-the AUTOINCREMENT counter, the origin columns and Information.uuid are typed. -/
+the AUTOINCREMENT counter, the origin columns and Information.uuid are typed,
+every column of every row is typed (timestamp ranges, blob kinds), and what
+`strftime('%s')` answers is a representable time point (clock before 2262). -/
 structure TDb.Wf (d : TDb) : Prop where
   ids : idsBelow .id d.rows d.seq
   typed : ∀ r ∈ d.rows, originTyped r = true
   uuid : uuidTyped d.uuid = true
+  cols : ∀ r ∈ d.rows, rowTypedT r = true
+  clk : in64 (d.clock * 1000000000) = true
 
 /-! ## one step of a history -/
 
